@@ -55,9 +55,16 @@ func verifEmit(s *BadgerStore, ev string, m map[string]any) {
 	verifW.Flush()
 }
 
+// verifOff reports that no trace was asked for: the hooks then do nothing at all.
+func verifOff() bool { return os.Getenv("VERIF_NET_TRACE") == "" }
+
 func verifShort(h crypto.Hash) string { return h.String()[:16] }
 
 func verifAfterWriteSnapshot(s *BadgerStore, snap *common.SnapshotWithTopologicalOrder) {
+	if verifOff() {
+		return
+	}
+	defer func() { recover() }() // a hook never disturbs the store
 	txn := s.snapshotsDB.NewTransaction(false)
 	defer txn.Discard()
 	stored, err := readSnapshotWithTopo(txn, snap.PayloadHash())
@@ -79,6 +86,10 @@ func verifAfterWriteSnapshot(s *BadgerStore, snap *common.SnapshotWithTopologica
 }
 
 func verifAfterWriteConsensusSnapshot(s *BadgerStore, snap *common.Snapshot, tx *common.VersionedTransaction) {
+	if verifOff() {
+		return
+	}
+	defer func() { recover() }() // a hook never disturbs the store
 	last, err := s.ReadLastConsensusSnapshot()
 	if err != nil || last == nil || last.PayloadHash() != snap.PayloadHash() {
 		return
@@ -92,6 +103,10 @@ func verifAfterWriteConsensusSnapshot(s *BadgerStore, snap *common.Snapshot, tx 
 }
 
 func verifAfterRound(s *BadgerStore, ev string, node crypto.Hash, number uint64, references *common.RoundLink) {
+	if verifOff() {
+		return
+	}
+	defer func() { recover() }() // a hook never disturbs the store
 	head, err := s.ReadRound(node)
 	if err != nil || head == nil || head.Number != number {
 		return
@@ -107,4 +122,12 @@ func verifAfterRound(s *BadgerStore, ev string, node crypto.Hash, number uint64,
 		}
 	}
 	verifEmit(s, ev, m)
+}
+
+// VerifEmit appends an event of another package's hooks (kernel/verif_hook.go) to the same trace,
+// under the identity and the sequence counter of the node's store.
+func VerifEmit(store any, ev string, m map[string]any) {
+	if s, ok := store.(*BadgerStore); ok {
+		verifEmit(s, ev, m)
+	}
 }
